@@ -119,7 +119,8 @@ ToSetOf(s) == {s[i] : i \in DOMAIN s}
 S1 == IF Params.s1 THEN SetToSeq({<<it>> : it \in Items(ToSetOf(Params.bounds))} \cup NeExprs(ToSetOf(Params.bounds))) ELSE <<>>
 S2 == SetToSeq({<<i, j>> : i \in Items(ToSetOf(Params.bounds2)), j \in Items(ToSetOf(Params.bounds2))})
 ItemSeq == SetToSeq(Items(ToSetOf(Params.bounds)))
-S3 == [n \in DOMAIN Params.sample |-> [m \in DOMAIN Params.sample[n] |-> ItemSeq[(Params.sample[n][m] % Len(ItemSeq)) + 1]]]
+S3 == SetToSeq({[m \in DOMAIN Params.sample[n] |-> ItemSeq[(Params.sample[n][m] % Len(ItemSeq)) + 1]] : n \in DOMAIN Params.sample}
+               \ (ToSetOf(S1) \cup ToSetOf(S2)))
 AllExprs == S1 \o S2 \o S3
 Mine == SelectSeq([i \in DOMAIN AllExprs |-> i], LAMBDA i : i % Params.nshards = Params.shard)
 
@@ -153,6 +154,8 @@ BadOf(n) == LET c == JCases[n]
                 o == JObs[n]
             IN {j \in DOMAIN c.args : ~Open(c.args[j], c.items) /\ ((o.got[j] = 1) # In(c.args[j].v, c.items))}
 OpenOf(n) == {j \in DOMAIN JCases[n].args : Open(JCases[n].args[j], JCases[n].items)}
+\* arguments at a bound of the expression or one tenth beside it: the cases that separate <= from <, : from ,
+BoundaryOf(n) == {j \in DOMAIN JCases[n].args : \E b \in BoundsOf(JCases[n].items) : Abs(JCases[n].args[j].v - b) <= 1}
 BadRec(n, j) == LET c == JCases[n] IN
   [id |-> c.id, valid |-> c.valid, arg |-> c.args[j].text, form |-> c.args[j].form, pos |-> c.pos,
    expected |-> IF In(c.args[j].v, c.items) THEN "accepted" ELSE "invalidFunctionArg",
@@ -168,6 +171,7 @@ ASSUME Mode = "judge" =>
   /\ PrintT(<<"JUDGED", Sum([n \in DOMAIN JCases |-> Len(JCases[n].args)]),
               "OPEN", Sum([n \in DOMAIN JCases |-> Cardinality(OpenOf(n))]),
               "INVALID", Sum([n \in DOMAIN JCases |-> Cardinality({j \in DOMAIN JCases[n].args : ~In(JCases[n].args[j].v, JCases[n].items)})]),
+              "BOUNDARY", Sum([n \in DOMAIN JCases |-> Cardinality(BoundaryOf(n))]),
               "BAD", Len(BadSeq)>>)
 
 (***************************************************************************)
